@@ -5,6 +5,7 @@
   and no union is empty.  `t.normal`: union nodes are what `typing.Union[...]` builds (true of every typing object).
 -/
 import MTVerif.Lemmas.Roundtrip
+import MTVerif.Lemmas.Normal
 namespace MT.C08
 open MT
 
@@ -12,6 +13,17 @@ open MT
     `Tuple[T, ...]`, class-object types `Type[C]`, unions, generators — at any nesting depth -/
 theorem type_roundtrip (env : Env) (nm : Names) (t : Ty) (hs : t.storable env nm = true) (hn : t.normal = true) :
     decodeTy env (encodeTy nm t) = .ok t := decode_encode env nm t hs hn
+
+/-- every type the tracer can record — `get_type` of any value, for any TypedDict size limit — is in `typing`'s normal form
+    (`Lemmas/Normal.lean`), so it round-trips exactly as soon as its classes are importable under their own names -/
+theorem recorded_type_roundtrip (env : Env) (nm : Names) (k : Nat) (v : Val) (hs : (getType k v).storable env nm = true) :
+    decodeTy env (encodeTy nm (getType k v)) = .ok (getType k v) :=
+  decode_encode env nm _ hs (getType_normal k v)
+
+/-- … and so does every merged type (`shrink_types` of recorded types), which is what `RewriteGenerator`-free stubs are built from -/
+theorem inferred_type_roundtrip (env : Env) (nm : Names) (k : Nat) (vs : List Val) (hs : (infer k vs).storable env nm = true) :
+    decodeTy env (encodeTy nm (infer k vs)) = .ok (infer k vs) :=
+  decode_encode env nm _ hs (infer_normal k vs)
 
 theorem encode_ne_null (nm : Names) (t : Ty) : encodeTy nm t ≠ .null := by
   cases t <;> simp [encodeTy, typingName, typingApp, nameJ]
